@@ -123,7 +123,8 @@ def stepLine (d : DState) (line : String) : DState × String :=
     | some b, some hn, some ms =>
       let a? : Option Action := match act with
         | "t" => some (.ret true) | "f" => some (.ret false)
-        | "panic" => some .panic | "panicstr" => some .panic | "timeout" => some .timeout | _ => none
+        | "panic" => some .panic | "panicstr" => some .panic | "timeout" => some .timeout
+        | a => if a.startsWith "detach:" then (a.drop 7).toString.toNat?.map Action.detach else none
       match a? with
       | none => (d, "bad-op")
       | some a =>
